@@ -8,8 +8,11 @@ package main
 
 import (
 	"bufio"
+	"encoding/json"
 	"fmt"
 	"math"
+	"os"
+	"path/filepath"
 
 	"verif/harness/internal/raftdrv"
 
@@ -478,10 +481,34 @@ var scenarios = []scenario{
 	}},
 }
 
-func runScenarios(which string, w *bufio.Writer, dir string) (int, []string) {
+// oracleSched / oracleSummary mirror the part of raftsim's summary.json that props/_raft.py reads
+// (collect_failures): schedules[].violations, .scenario (file with {name,opt,events}), .sched, .profile.
+type oracleSched struct {
+	Index   int                 `json:"sched"`
+	Profile string              `json:"profile"`
+	Opt     raftdrv.Options     `json:"opt"`
+	Records int                 `json:"records"`
+	Viol    []raftdrv.Violation `json:"violations,omitempty"`
+	Scen    string              `json:"scenario,omitempty"`
+	Name    string              `json:"name"`
+}
+type oracleSummary struct {
+	Mode       string        `json:"mode"`
+	Seed       int64         `json:"seed"`
+	Storage    string        `json:"storage"`
+	Schedules  []oracleSched `json:"schedules"`
+	Violations int           `json:"violations"`
+	Order      string        `json:"order"`
+}
+
+// runScenarios runs the directed schedules; every record goes to the acceptor trace (w) AND to the
+// direct C01/C02/C03 oracles of raftdrv. If oracleOut != "" a raftsim-style summary.json and, for
+// every schedule with violations, a replayable scenario file (raftsim -mode replay) are written there.
+func runScenarios(which string, w *bufio.Writer, dir string, oracleOut string) (int, []string) {
 	n := 0
 	var problems []string
-	for _, sc := range scenarios {
+	sum := oracleSummary{Mode: "raftabs-scenario", Storage: "mem"}
+	for idx, sc := range scenarios {
 		if which != "all" && which != sc.name {
 			continue
 		}
@@ -491,9 +518,20 @@ func runScenarios(which string, w *bufio.Writer, dir string) (int, []string) {
 		c, rec0, err := raftdrv.NewCluster(opt)
 		fmt.Fprintf(w, "T\tscenario-%s\t0\t0\tscenario\n", sc.name)
 		sentInReady = map[uint64]bool{}
-		emit(w, rec0)
+		orc := raftdrv.NewOracle()
+		var evs []raftdrv.Event
+		nrec := 0
+		sink := func(rec *raftdrv.Record) {
+			nrec++
+			if rec.S > 0 {
+				evs = append(evs, rec.Ev)
+			}
+			orc.Feed(rec)
+			emit(w, rec)
+		}
+		sink(rec0)
 		if err == nil {
-			s := &scen{c: c, sink: func(rec *raftdrv.Record) { emit(w, rec) }, done: map[int]bool{}}
+			s := &scen{c: c, sink: sink, done: map[int]bool{}}
 			sc.run(s)
 			if s.fail != "" {
 				problems = append(problems, sc.name+": "+s.fail)
@@ -505,6 +543,31 @@ func runScenarios(which string, w *bufio.Writer, dir string) (int, []string) {
 			c.Close()
 		}
 		fmt.Fprintf(w, "Z\n")
+		osch := oracleSched{Index: idx, Profile: "scenario:" + sc.name, Opt: sc.opt, Records: nrec, Name: sc.name}
+		if len(orc.V) > 0 {
+			osch.Viol = orc.V
+			sum.Violations += len(orc.V)
+			for _, v := range orc.V {
+				b, _ := json.Marshal(v)
+				fmt.Printf("VIOL scenario-%s %s\n", sc.name, b)
+			}
+			if oracleOut != "" {
+				osch.Scen = filepath.Join(oracleOut, "scenario-"+sc.name+".scenario.json")
+				b, _ := json.MarshalIndent(raftdrv.Scenario{Name: "raftabs-" + sc.name, Opt: sc.opt, Events: evs}, "", " ")
+				osWriteFile(osch.Scen, b)
+			}
+		}
+		sum.Schedules = append(sum.Schedules, osch)
+	}
+	if oracleOut != "" {
+		sum.Order = raftdrv.CurrentOrder.String()
+		b, _ := json.MarshalIndent(sum, "", " ")
+		osWriteFile(filepath.Join(oracleOut, "summary.json"), b)
 	}
 	return n, problems
+}
+
+func osWriteFile(path string, b []byte) {
+	os.MkdirAll(filepath.Dir(path), 0755)
+	os.WriteFile(path, b, 0644)
 }
